@@ -969,7 +969,7 @@ def main(run):
         run.find(key, what, rp, concrete=concrete)
     run.notes["stats"] = stats
     run.notes["traces_validated_against_impl"] = stats.get("traces_replayed", 0) + stats.get("star_replayed", 0)
-    run.not_proved += [                       "termination of Sabre / ShortestPaths"]
+    run.not_proved += [                       "termination of the real loops as such: proved are progress statements of the model (every exec decreases the remaining blocks; a ShortestPaths swap round and Sabre's _shortest_path_routing reset make the chosen front block executable; the star router is a structural recursion); Sabre's ordinary heuristic swaps carry no progress guarantee other than the swap_threshold reset, and that the real while-loops reach these steps is covered by the run-time timeouts only"]
     return run.finish(level="proof", rule=RULE)
 
 
